@@ -1,6 +1,6 @@
 #!/bin/bash
 # Runs every registered check of a tier in sequence; prints one summary line per check.
-cd /verif
+cd "$(dirname "$0")/.."
 TIER="${1:-quick}"
 for id in $(python3 -c "import json;print(' '.join(c['property_id'] for c in json.load(open('MANIFEST.json'))['checks']))"); do
   s=$(date +%s)
